@@ -11,7 +11,7 @@ INFO = {
     'outside': 'theory literals (they enter through C09-C12 and C14), clause sets / histories not enumerated, more than 9 variables',
 }
 
-OPS = {'assume': 0, 'pop': 1, 'propagate': 2, 'next': 3, 'check1': 4, 'check2': 5, 'simplify': 6, 'clause1': 7, 'clause2': 8}
+OPS = {'assume': 0, 'pop': 1, 'propagate': 2, 'next': 3, 'check1': 4, 'check2': 5, 'simplify': 6, 'clause1': 7, 'clause2': 8, 'check3': 9}
 
 
 def scen(V, clauses, hist):
@@ -24,7 +24,8 @@ def scen(V, clauses, hist):
         op = OPS[h[0]]
         l1 = h[1] if len(h) > 1 else (0, 0)
         l2 = h[2] if len(h) > 2 else (0, 0)
-        p += [op, l1[0], l1[1], l2[0], l2[1]]
+        l3 = h[3] if len(h) > 3 else (0, 0)
+        p += [op, l1[0], l1[1], l2[0] + 16 * l3[0], l2[1] + 2 * l3[1]]
     return p
 
 
@@ -62,6 +63,17 @@ CURATED = [
     (3, [C(1, 2, 3)], [('clause1', L(-1)), ('simplify',), ('clause2', L(-2), L(-3)), ('assume', L(2))]),
     # duplicate / tautological / already satisfied clauses
     (2, [C(1, 1, 2), C(1, -1), C(2)], [('assume', L(-1)), ('pop',)]),
+    # a learnt clause (!c | !a | !b) that is NOT a unit-propagation consequence of the added clauses: after undoing only the higher of
+    # its two earlier levels and deciding c again it must still force !b (and symmetric)
+    (6, [C(-1, -3, 4), C(-2, -3, 5), C(-4, -5, 6), C(-4, -5, -6)], [('assume', L(1)), ('assume', L(2)), ('assume', L(3)), ('pop',), ('assume', L(3)), ('assume', L(2))]),
+    (6, [C(-1, -3, 4), C(-2, -3, 5), C(-4, -5, 6), C(-4, -5, -6)], [('assume', L(2)), ('assume', L(1)), ('assume', L(3)), ('pop',), ('assume', L(3)), ('assume', L(1))]),
+    (6, [C(-3, -1, 4), C(-3, -2, 5), C(-5, -4, 6), C(-6, -4, -5)], [('assume', L(1)), ('assume', L(2)), ('assume', L(3)), ('pop',), ('pop',), ('assume', L(2)), ('assume', L(3))]),
+    (6, [C(-1, -3, 4), C(-2, -3, 5), C(-4, -5, 6), C(-4, -5, -6)], [('assume', L(1)), ('assume', L(2)), ('check1', L(3)), ('pop',), ('assume', L(3))]),
+    # check() with three assumptions where the last one conflicts with the first only (backjump over the unrelated middle one), from root and from level 1
+    (4, [C(-1, -3, 4), C(-1, -3, -4)], [('check3', L(1), L(2), L(3)), ('check3', L(2), L(1), L(3))]),
+    (5, [C(-1, -3, 4), C(-1, -3, -4)], [('assume', L(5)), ('check3', L(1), L(2), L(3)), ('check2', L(1), L(3)), ('pop',), ('check3', L(1), L(2), L(3))]),
+    (4, [C(-1, 4), C(-4, -3)], [('check3', L(1), L(2), L(3)), ('check3', L(2), L(1), L(3)), ('check3', L(3), L(2), L(-1))]),
+    (5, [C(-1, -2, 4), C(-4, -3), C(-5, 3)], [('assume', L(5)), ('check3', L(1), L(2), L(-3)), ('check3', L(1), L(-2), L(4))]),
     # two conflicts in a row
     (4, [C(-1, 2), C(-1, 3), C(-2, -3, 4), C(-4, -1)], [('assume', L(1)), ('assume', L(-1)), ('assume', L(4))]),
     (4, [C(1, 2), C(1, -2, 3), C(-3, 4), C(-3, -4), C(-1, 2)], [('assume', L(-1)), ('assume', L(3)), ('next',)]),
@@ -79,8 +91,8 @@ def sample(rng, n, V, maxc, maxh):
             clauses.append([(v, rng.randint(0, 1)) for v in vs])
         hist = []
         for _ in range(rng.randint(2, maxh)):
-            o = rng.choice(['assume', 'assume', 'assume', 'assume', 'pop', 'next', 'check1', 'check2', 'propagate', 'clause1', 'clause2', 'simplify'])
-            hist.append((o, (rng.randint(1, V), rng.randint(0, 1)), (rng.randint(1, V), rng.randint(0, 1))))
+            o = rng.choice(['assume', 'assume', 'assume', 'assume', 'pop', 'next', 'check1', 'check2', 'check3', 'propagate', 'clause1', 'clause2', 'simplify'])
+            hist.append((o, (rng.randint(1, V), rng.randint(0, 1)), (rng.randint(1, V), rng.randint(0, 1)), (rng.randint(1, V), rng.randint(0, 1))))
         out.append((V, clauses, hist))
     return out
 
@@ -94,6 +106,12 @@ def family_backjump():
         for o2 in itertools.permutations(c2):
             for order in ((1, 2, 3), (2, 1, 3)):
                 out.append((4, [list(o1), list(o2)], [('assume', L(v)) for v in order] + [('assume', L(4))]))
+    # the learnt clause (!r | !p | !q) must keep propagating after the higher of its two earlier levels is undone and the
+    # literals come back in another order
+    for o1 in list(itertools.permutations(c1))[::2]:
+        for order in ((1, 2, 3), (2, 1, 3)):
+            out.append((4, [list(o1), c2], [('assume', L(v)) for v in order] + [('pop',), ('assume', L(3)), ('assume', L(order[1]))]))
+            out.append((4, [list(o1), c2], [('assume', L(v)) for v in order] + [('pop',), ('pop',), ('assume', L(3)), ('assume', L(order[1])), ('assume', L(order[0]))]))
     return out
 
 
